@@ -167,7 +167,8 @@ def check_characters(ctx, rep, tier):
     rep.analysed['covered_layouts'] = covered
     rep.rule = ('for every layout with a frozen reference, every reference key, every modifier state x mode that selects the base / shift / AltGr '
                 'level (CapsLock off, Ctrl not mapped, not Shift+AltGr): the extracted output must be an accepted character of that cell; a distinct '
-                'AltGr character on a key with no reference AltGr cell is reported')
+                'AltGr character on a key with no reference AltGr cell is reported; with Ctrl being mapped the output is one of the key\'s own '
+                'reference characters or the control character of its letter')
 
 
 # ---------------------------------------------------------------------------
@@ -432,6 +433,8 @@ def check_numpad(ctx, rep, tier):
 
 # ---------------------------------------------------------------------------
 def check_raw(ctx, rep, tier):
+    from .rules_event import check_eq_structural
+    check_eq_structural(ctx, rep, ('DecodedKey', 'KeyCode'))
     """C16"""
     tabs = tables(ctx, rep)
     B = Bits(ctx)
